@@ -294,6 +294,7 @@ package relmod
 //@   ensures [optionality-kept] paramType != nil ==> s.Param[len(s.Param)-1].ParamOpt == old(paramType.Opt)
 //@   ensures [untyped-is-any] paramType == nil ==> !s.Param[len(s.Param)-1].ParamOpt && tagof(s.Param[len(s.Param)-1].ParamType) == typeid("relmod.TypePrimitive")
 //@   ensures [rows-kept] forall(i, 0, old(len(s.Param)), s.Param[i] == old(s.Param[i]))
+//@   assert @call:arrai/relmod.normalizeParamMeta [tags-and-annotations-keyed-like-the-param-row] arg0 == s && arg1 == app && arg2 == ep && arg3 == paramName && arg4 == paramType && arg5 == param.ParamLoc && arg6 == param.ParamIndex && arg6 == paramIndex
 
 // An event gives one Event row and one Param row per parameter, in order.
 //@ func normalizeEvent
